@@ -91,7 +91,7 @@ LOOP_GROUPS = {"C01": (["delta"], "C01.source_scan_sync_is_model / source_scan_a
                "C18": (["reconcile"], "C18.source_reconcile_is_model"),
                "C19": (["plan", "scan"], "C19.source_build_plan_is_model / source_is_excluded_is_model / source_glob_match_is_model / source_listing_parser_is_model"),
                "C15": (["plan", "reconcile", "bidir", "oneway"], "C15.source_dry_run_local / source_dry_run_remote / source_is_excluded_is_model / source_glob_match_is_model / source_bisync_dry_run_is_model"),
-               "C04": (["plan", "scan", "oneway", "deliver"], "C04.source_pull_stream_ok_iff / source_run_local_is_model / source_run_remote_is_model / source_build_plan_is_model / source_meta_scan_fails_on_a_stat_error / source_meta_scan_is_exact"),
+               "C04": (["plan", "scan", "oneway", "deliver", "target"], "C13.source_parse_location_is_model, C04.source_pull_stream_ok_iff / source_run_local_is_model / source_run_remote_is_model / source_build_plan_is_model / source_meta_scan_fails_on_a_stat_error / source_meta_scan_is_exact"),
                "C02": (["reconcile", "bidir", "crash", "scan"], "C02.source_apply_is_model / source_run_is_model, C18.source_reconcile_is_model"),
                "C06": (["reconcile", "bidir", "crash", "scan"], "C02.source_apply_is_model / source_run_is_model, C18.source_reconcile_is_model"),
                "C07": (["reconcile", "bidir", "archive", "scan"], "C02.source_apply_is_model / source_run_is_model, C18.source_reconcile_is_model, C07.source_pair_key_is_injective"),
@@ -99,7 +99,7 @@ LOOP_GROUPS = {"C01": (["delta"], "C01.source_scan_sync_is_model / source_scan_a
                "C14": (["deliver", "scan"], "C14.source_remote_listing_is_the_whole_output, C09.source_deliver_local_is_model / source_deliver_pull_is_model (delivery stamps the source's mtime on a FRESH file)"),
                "C09": (["deliver", "oneway"], "C09.source_delete_list_items, C09.source_deliver_local_is_model / source_deliver_pull_is_model"),
                "C11": (["hub", "hubput", "bidir"], "C11.source_short_hash_has_no_separator / source_safe_join_is_model / source_conflict_name_is_model / source_conflict_name_under_root"),
-               "C13": (["hubsync", "hubput"], "C13.source_push_loop_is_model / source_hub_sync_is_model / source_conflict_name_free_or_same"),
+               "C13": (["hubsync", "hubput", "target"], "C13.source_split_target_is_model / source_push_loop_is_model / source_hub_sync_is_model / source_conflict_name_free_or_same"),
                "C20": (["codec"], "C20.source_write_message_is_model / source_read_header_is_model / source_read_message_is_model"),
                "C12": (["wire", "hubput"], "C11.source_conflict_name_is_model, C12.source_serve_is_model / source_read_frame_is_loop_round / source_read_frame_reserves_at_most_max / source_read_frame_stays_in_step"),
                "C03": (["hubput", "hub"], "C03.source_handle_put_calls_are_solo_put / source_handle_delete_calls_are_solo_delete, C11.source_safe_join_is_model"),
